@@ -513,6 +513,46 @@ def r25_stack_index(sig, body):
     return sig, body, n
 
 
+def r32_stack_assign(sig, body):
+    """R32: `self.active_fiber_mut().stack[E] = V;` -> `{ let verif_v = V; self.stack_set(E, verif_v); }` (writing slot E of the active fiber's value stack, by contract; Rust evaluates the assigned value before the place)"""
+    n = 0
+    while True:
+        m = re.search(r'self\s*\.\s*active_fiber_mut\(\)\s*\.\s*stack\s*\[', body)
+        if not m:
+            break
+        op = m.end() - 1
+        cl = _match_paren(body, op, '[', ']')
+        m2 = re.match(r'\s*=(?!=)', body[cl + 1:])
+        if not m2:
+            break
+        vs = cl + 1 + m2.end()
+        semi = _stmt_end(body, vs)
+        if semi < 0:
+            break
+        body = body[:m.start()] + '{ let verif_v = %s; self.stack_set(%s, verif_v); }' % (body[vs:semi].strip(), body[op + 1:cl].strip()) + body[semi + 1:]
+        n += 1
+    return sig, body, n
+
+
+def _stmt_end(body, start):
+    """position of the `;` that ends the statement starting at `start` (depth 0 w.r.t. brackets), or -1"""
+    mask = rsx.code_mask(body)
+    depth = 0
+    for i in range(start, len(body)):
+        if not mask[i]:
+            continue
+        c = body[i]
+        if c in '([{':
+            depth += 1
+        elif c in ')]}':
+            depth -= 1
+            if depth < 0:
+                return -1
+        elif c == ';' and depth == 0:
+            return i
+    return -1
+
+
 # ----------------------------------------------------------------------------------------------------------------------
 # &str handling for the scanner (unit `scan`): Verus has no `match` on string literals and no `==` on str.
 
@@ -837,6 +877,7 @@ RULES = {
     'R29': r29_str_compare,
     'R30': r30_method_minmax,
     'R31': r31_loop_break_to_while,
+    'R32': r32_stack_assign,
 }
 
 DESCRIPTIONS = {k: (v.__doc__ or '').strip() for k, v in RULES.items()}
